@@ -19,12 +19,12 @@ import (
 // ---------------------------------------------------------------------------
 
 type schedConn struct {
-	mu      sync.Mutex
-	writes  [][]byte
-	gate    chan struct{}
-	entered chan struct{}
-	parked  bool
-	closed  bool
+	mu        sync.Mutex
+	writes    [][]byte
+	gate      chan struct{}
+	entered   chan struct{}
+	parked    bool
+	closed    bool
 	failFirst int // >= 0: the parked Write accepts only this many bytes and then fails
 	failed    bool
 }
@@ -87,7 +87,7 @@ func runSchedScenario(seed int64) *scenario {
 	go func() { defer wg.Done(); werr = c.WriteMessage(2, payload) }()
 	select {
 	case <-sconn.entered:
-	case <-time.After(3 * time.Second):
+	case <-time.After(30 * time.Second):
 		sc.violate("writer never reached the transport")
 		return sc
 	}
@@ -113,7 +113,7 @@ func runSchedScenario(seed int64) *scenario {
 		}
 		callers = append(callers, cl)
 		go func(cl *caller) {
-			d := 5 * time.Second
+			d := 20 * time.Second
 			if cl.short {
 				d = 25 * time.Millisecond
 			}
@@ -137,7 +137,7 @@ func runSchedScenario(seed int64) *scenario {
 			if cl.err == nil || errName(cl.err) != "writeTimeout" {
 				sc.violate("WriteControl #%d with a 25ms deadline returned %v while the writer held the connection", i, cl.err)
 			}
-		case <-time.After(4 * time.Second):
+		case <-time.After(30 * time.Second):
 			sc.violate("WriteControl #%d with a 25ms deadline did not return within 4s while the writer was blocked in the transport", i)
 		}
 	}
@@ -149,7 +149,7 @@ func runSchedScenario(seed int64) *scenario {
 		}
 		select {
 		case <-cl.done:
-		case <-time.After(4 * time.Second):
+		case <-time.After(30 * time.Second):
 			sc.violate("WriteControl #%d (long deadline) never returned after the writer finished", i)
 		}
 	}
